@@ -601,6 +601,40 @@ fn observe<K: Kind>(buf: &[u8], root: &K::R, r: &K::R, w: &Win, what: &str) -> R
     Ok(())
 }
 
+/// Offsets between live readers: a base that does not start at byte 0 of the buffer.
+fn observe_pairs<K: Kind>(readers: &[K::R], wins: &[Win], what: &str) -> Result<(), Fail> {
+    for (i, (ri, wi)) in readers.iter().zip(wins.iter()).enumerate() {
+        for (j, (rj, wj)) in readers.iter().zip(wins.iter()).enumerate() {
+            // offset_from requires the base to contain the reader
+            if i == j || wj.off > wi.off || wi.off + wi.len > wj.off + wj.len {
+                continue;
+            }
+            let got = match guard(|| ri.offset_from(rj)) {
+                Ok(o) => o,
+                Err(p) => return Err((p.site(), p.kind(), format!("after {}: {} offset_from(reader#{}) of reader#{} panicked: {}", what, K::NAME, j, i, p.msg))),
+            };
+            if got != wi.off - wj.off {
+                return Err(("offset_from-base-view".into(), "wrong-offset".into(), format!("after {}: {} reader#{} {:?} offset_from reader#{} {:?} = {}, model {}", what, K::NAME, i, wi, j, wj, got, wi.off - wj.off)));
+            }
+            // ids of the inner reader resolve relative to the containing view
+            let id = ri.offset_id();
+            if rj.lookup_offset_id(id) != Some(wi.off - wj.off) {
+                return Err(("offset_id-base-view".into(), "wrong-offset-id".into(), format!("after {}: {} reader#{} {:?} id looked up in reader#{} {:?} = {:?}, model {}", what, K::NAME, i, wi, j, wj, rj.lookup_offset_id(id), wi.off - wj.off)));
+            }
+        }
+        // an id outside the view is not found
+        for (j, (rj, wj)) in readers.iter().zip(wins.iter()).enumerate() {
+            if i != j && (wi.off < wj.off || wi.off > wj.off + wj.len) {
+                let id = ri.offset_id();
+                if rj.lookup_offset_id(id).is_some() {
+                    return Err(("offset_id-base-view".into(), "id-outside-accepted".into(), format!("after {}: {} reader#{} {:?} id accepted by reader#{} {:?}", what, K::NAME, i, wi, j, wj)));
+                }
+            }
+        }
+    }
+    Ok(())
+}
+
 fn buffer(n: usize) -> Vec<u8> {
     // one NUL, non-UTF-8 bytes, a LEB continuation run, a 64-bit initial-length
     // escape and a reserved initial length (little endian) near the end.
@@ -642,6 +676,7 @@ fn explore_kind<K: Kind>(ctx: &mut Ctx, n: usize, pool_max: usize, big: bool) {
             for (r, w) in n.readers.iter().zip(n.wins.iter()) {
                 observe::<K>(buf, &root, r, w, &what)?;
             }
+            observe_pairs::<K>(&n.readers, &n.wins, &what)?;
             Ok(Some(n))
         },
         |a| format!("r{}.{:?}", a / na, acts[a % na]),
@@ -698,6 +733,7 @@ fn explore_guarded(ctx: &mut Ctx, n: usize, pool_max: usize, big: bool) {
             for (r, w) in st.readers.iter().zip(st.wins.iter()) {
                 observe::<KG>(&payload, &root, r, w, "step")?;
             }
+            observe_pairs::<KG>(&st.readers, &st.wins, "step")?;
             // canaries intact, handles accounted for, buffer alive
             let d = &root.bytes();
             let _ = d;
